@@ -75,6 +75,12 @@ Section Inv.
       n_role (nd (m_from m)) = Candidate -> n_term (nd (m_from m)) = m_term m ->
       m_index m = length (n_log (nd (m_from m))) /\ m_logterm m = last_term (n_log (nd (m_from m))).
   Definition iW12 := forall m, In m (msgs s) -> m_type m = MsgVote -> m_term m <= n_term (nd (m_from m)).
+  Definition iW13 := forall m, In m (msgs s) -> m_type m = MsgSnap ->
+      LL s (m_term m) <> [] /\
+      m_ents m = firstn (m_index m) (LL s (m_term m)) /\
+      m_index m <= length (LL s (m_term m)) /\
+      m_logterm m = term_at (LL s (m_term m)) (m_index m) /\
+      CP (m_term m) (m_index m).
   Definition iW11 := forall x, n_role (nd x) = Candidate -> terms_lt (n_log (nd x)) (n_term (nd x)).
 
   (* ---- K: acknowledgements and commitment *)
@@ -100,7 +106,7 @@ Section Inv.
 
   Record Inv : Prop := mkInv {
     hA1 : iA1; hA2 : iA2; hA3 : iA3; hA4 : iA4; hA5 : iA5; hA6a : iA6a; hA6b : iA6b; hA7 : iA7; hA8 : iA8;
-    hW1 : iW1; hW2 : iW2; hW3 : iW3; hW4 : iW4; hW5 : iW5; hW7 : iW7; hW8 : iW8; hW9 : iW9; hW10 : iW10; hW11 : iW11; hW12 : iW12;
+    hW1 : iW1; hW2 : iW2; hW3 : iW3; hW4 : iW4; hW5 : iW5; hW7 : iW7; hW8 : iW8; hW9 : iW9; hW10 : iW10; hW11 : iW11; hW12 : iW12; hW13 : iW13;
     hK1 : iK1; hK2 : iK2; hK3 : iK3; hK4 : iK4; hK5 : iK5; hK6 : iK6; hK7 : iK7; hK8 : iK8; hK9 : iK9; hK10 : iK10; hK11 : iK11
   }.
   End S.
